@@ -152,6 +152,9 @@ type scn struct {
 	parked    bool
 	singleton bool
 	afterNew  func() // called right after the constructor has returned
+	// ownDiag: an open failure was provoked - whole lines without a message token (the logger's
+	// own report of the failure) are not counted as torn lines
+	ownDiag bool
 }
 
 var singletonUsed bool
@@ -327,6 +330,7 @@ type parsed struct {
 	raw     string
 	recs    []rec
 	junk    []string // physical lines that are neither blank/header/trailer nor exactly one whole record
+	notok   []string // whole timestamped lines that carry no message token at all (nothing the monitor logged)
 	headers int
 }
 
@@ -353,6 +357,10 @@ func parseLog(name, raw string) *parsed {
 			continue
 		}
 		toks := tokRe.FindAllStringSubmatchIndex(rest, -1)
+		if len(toks) == 0 {
+			p.notok = append(p.notok, fmt.Sprintf("line %d carries 0 message tokens: %s", ln+1, clip(rest, 200)))
+			continue
+		}
 		if len(toks) != 1 {
 			p.junk = append(p.junk, fmt.Sprintf("line %d carries %d message tokens: %s", ln+1, len(toks), clip(rest, 200)))
 			continue
